@@ -104,9 +104,35 @@ class Ctx:
     async def never(self):
         await self.loop.create_future()
 
+    def peek(self):
+        """harness.peek: somebody looks at the schedulers while they run (a monitoring job
+        printing the tree, a debugger): the read-only API must leave the run alone"""
+        if not self.h.get("peek") or self.pre:
+            return
+        for sched in list(self.obj.values()):
+            if not isinstance(sched, PureScheduler):
+                continue
+            try:
+                list(sched.entry_jobs())
+                list(sched.exit_jobs())
+                sched.check_cycles()
+                for job in list(sched.jobs)[:2]:
+                    sched.successors_downstream(job)
+                    sched.predecessors_upstream(job)
+                list(sched.iterate_jobs())
+                sched.list()
+                sched.list_safe()
+                sched.stats()
+                repr(sched)
+                sched.why()
+                sched.dot_format()
+            except Exception:                           # pylint: disable=W0703
+                pass        # known finding K1 (dot_format of some trees); not the subject here
+
     async def body(self, node):
         self.nbody[node] += 1
         self.log("start", node)
+        self.peek()
         dur = self.g("dur", node)
         try:
             if dur < 0:
@@ -137,6 +163,7 @@ class Ctx:
             klass = VRuntimeExc if self.h.get("rterr") else VExc
             raise klass(node, () if self.h.get("emptymsg") else None)
         self.log("end", node)
+        self.peek()
         self.stall(node)
         if self.h.get("awaitable") and node % 2 == 0:
             # the object a body returns may itself be awaitable (a future, a task handle):
@@ -196,6 +223,10 @@ class Ctx:
                     except asyncio.CancelledError:
                         self.log("shut-recancel", node)
                 self.log("shut-cancel-done", node)
+            if self.h.get("sabsorb") and node % 2 == 1:
+                # a handler may absorb its cancellation: it does a last clean-up and returns
+                # normally; it still had to be cancelled
+                return None
             raise
         self.log("shut-done", node)
 
@@ -275,6 +306,7 @@ class Ctx:
                  snap=[self.code(i) for i in range(2, self.n + 1)])
 
     def tick(self, _old, new):
+        self.peek()
         if self.snapping:
             self.snap()
         self.log("tick", 0, num=new)
@@ -392,7 +424,9 @@ def build(ctx):
         if ctx.h.get("watch"):
             from asynciojobs import Watch
             watch = Watch(show_elapsed=False)
-        kwds = dict(watch=watch, jobs_window=None if win == 0 else win,
+        # "None or 0 means no limit"
+        nolimit = 0 if ctx.h.get("zerowin") else None
+        kwds = dict(watch=watch, jobs_window=nolimit if win == 0 else win,
                     timeout=None if tmo < 0 else tmo,
                     shutdown_timeout=None if stmo < 0 else stmo,
                     verbose=bool(ctx.h.get("verbose", False)))
